@@ -159,7 +159,8 @@ func RunSync(no int, seed int64, root string, tw *trace.Writer, o SyncOpts) erro
 		}
 		oldNodes = append(oldNodes, n)
 	}
-	users := []string{"alice", "bob", "carol", "dave", "erin", "frank"}
+	// (ids that are prefixes of one another: a key "user1/..." sorts right before "user10/...")
+	users := []string{"alice", "alice2", "bob", "bo", "user1", "user10", "user100", "dave"}
 	g := &sd.Gen{R: r, Cfg: FanCfg}
 	points := map[string][]int{} // record -> ids
 	var cols []models.Collection
